@@ -322,7 +322,12 @@ func lockOps() []seq.Op[*lockPair] {
 		o = append(o, seq.Op[*lockPair]{Name: "Lock(" + kname(k) + ")", Enabled: func(s *lockPair) bool { return !s.w[k] && s.r[k] == 0 },
 			Step: func(s *lockPair) (string, string) { s.wide.Lock(k); s.single.Lock(k); s.w[k] = true; return "", "" }})
 		o = append(o, seq.Op[*lockPair]{Name: "Unlock(" + kname(k) + ")", Enabled: func(s *lockPair) bool { return s.w[k] },
-			Step: func(s *lockPair) (string, string) { s.wide.Unlock(k); s.single.Unlock(k); s.w[k] = false; return "", "" }})
+			Step: func(s *lockPair) (string, string) {
+				s.wide.Unlock(k)
+				s.single.Unlock(k)
+				s.w[k] = false
+				return "", ""
+			}})
 		o = append(o, seq.Op[*lockPair]{Name: "RLock(" + kname(k) + ")", Enabled: func(s *lockPair) bool { return !s.w[k] && s.r[k] < 2 },
 			Step: func(s *lockPair) (string, string) { s.wide.RLock(k); s.single.RLock(k); s.r[k]++; return "", "" }})
 		o = append(o, seq.Op[*lockPair]{Name: "RUnlock(" + kname(k) + ")", Enabled: func(s *lockPair) bool { return s.r[k] > 0 },
@@ -376,7 +381,12 @@ func tlockOps() []seq.Op[*tlockPair] {
 		o = append(o, seq.Op[*tlockPair]{Name: fmt.Sprintf("Lock(%d)", k), Enabled: func(s *tlockPair) bool { return !s.w[k] && s.r[k] == 0 },
 			Step: func(s *tlockPair) (string, string) { s.wide.Lock(k); s.single.Lock(k); s.w[k] = true; return "", "" }})
 		o = append(o, seq.Op[*tlockPair]{Name: fmt.Sprintf("Unlock(%d)", k), Enabled: func(s *tlockPair) bool { return s.w[k] },
-			Step: func(s *tlockPair) (string, string) { s.wide.Unlock(k); s.single.Unlock(k); s.w[k] = false; return "", "" }})
+			Step: func(s *tlockPair) (string, string) {
+				s.wide.Unlock(k)
+				s.single.Unlock(k)
+				s.w[k] = false
+				return "", ""
+			}})
 		o = append(o, seq.Op[*tlockPair]{Name: fmt.Sprintf("RLock(%d)", k), Enabled: func(s *tlockPair) bool { return !s.w[k] && s.r[k] < 2 },
 			Step: func(s *tlockPair) (string, string) { s.wide.RLock(k); s.single.RLock(k); s.r[k]++; return "", "" }})
 		o = append(o, seq.Op[*tlockPair]{Name: fmt.Sprintf("RUnlock(%d)", k), Enabled: func(s *tlockPair) bool { return s.r[k] > 0 },
